@@ -148,7 +148,7 @@ def spec_item(rec, item):
   for lit in lits:
     rec.evals += 1
     trd = dict(tr, dna=lit)
-    dna = pg.DNA(lit)
+    dna = pg.DNA(D.ctor(lit))
     try:
       v = t.decode(dna)
     except Exception as e:  # pylint: disable=broad-except
@@ -161,17 +161,17 @@ def spec_item(rec, item):
     got = plain(v)
     if got != want:
       rec.viol(f'decode-differs-from-reference/{base}', f'decode({lit!r}) = {got!r}, the template denotes {want!r}', trd); ok = False
-    v2 = t.decode(pg.DNA(lit))
+    v2 = t.decode(pg.DNA(D.ctor(lit)))
     if plain(v2) != got or (isinstance(v2, pg.Symbolic) and v2 is v):
       rec.viol(f'decode-not-repeatable/{base}', f'decoding {lit!r} twice gives {plain(v2)!r} then {got!r} (or the same object)', trd); ok = False
     try:
       back = t.encode(v)
-      if back != pg.DNA(lit):
+      if back != pg.DNA(D.ctor(lit)):
         rec.viol(f'encode-not-inverse/{base}', f'encode(decode({lit!r})) = {back!r}', trd); ok = False
     except Exception as e:  # pylint: disable=broad-except
       rec.viol(f'encode-raises:{type(e).__name__}/{base}', f'encode(decode({lit!r})): {e}', trd); ok = False
     try:
-      m = pg.materialize(value, pg.DNA(lit))
+      m = pg.materialize(value, pg.DNA(D.ctor(lit)))
       if plain(m) != got:
         rec.viol(f'materialize-differs/{base}', f'materialize(..., {lit!r}) = {plain(m)!r}', trd); ok = False
     except Exception as e:  # pylint: disable=broad-except
@@ -442,7 +442,7 @@ def custom_item(rec, name):
     rec.trans += 1
     trd = dict(tr, dna=lit)
     try:
-      v = t.decode(pg.DNA(lit))
+      v = t.decode(pg.DNA(D.ctor(lit)))
     except Exception as e:  # pylint: disable=broad-except
       rec.viol(f'decode-raises:{type(e).__name__}/custom-{name}', f'decode({lit!r}): {e}', trd)
       continue
@@ -450,16 +450,16 @@ def custom_item(rec, name):
       rec.viol(f'placeholder-left/custom-{name}', f'decode({lit!r}) = {v!r}', trd)
     if plain(v) != want:
       rec.viol(f'decode-differs-from-reference/custom-{name}', f'decode({lit!r}) = {plain(v)!r}, the template denotes {want!r}', trd)
-    if plain(t.decode(pg.DNA(lit))) != plain(v):
+    if plain(t.decode(pg.DNA(D.ctor(lit)))) != plain(v):
       rec.viol(f'decode-not-repeatable/custom-{name}', f'{lit!r}', trd)
     try:
       back = t.encode(v)
-      if back != pg.DNA(lit):
+      if back != pg.DNA(D.ctor(lit)):
         rec.viol(f'encode-not-inverse/custom-{name}', f'encode(decode({lit!r})) = {back!r}', trd)
     except Exception as e:  # pylint: disable=broad-except
       rec.viol(f'encode-raises:{type(e).__name__}/custom-{name}', f'encode(decode({lit!r})): {e}', trd)
     try:
-      if plain(pg.materialize(value, pg.DNA(lit))) != want:
+      if plain(pg.materialize(value, pg.DNA(D.ctor(lit)))) != want:
         rec.viol(f'materialize-differs/custom-{name}', f'{lit!r}', trd)
     except Exception as e:  # pylint: disable=broad-except
       rec.viol(f'materialize-raises:{type(e).__name__}/custom-{name}', f'{lit!r}: {e}', trd)
